@@ -649,6 +649,28 @@ example : runNB unitTable Env.empty
      .base (.prop [['g'], ['g'], ['b']] .constant)] = true := by
   decide +kernel
 
+/-- The case the import side condition of `InFrag` excludes, as a theorem of its own: when the
+    specification's import selects no node — it then records `mayReject`, i.e. allows the program
+    to be rejected — the model's import line, at any indent and with any written prefix, IS an
+    error (no entry is added).  Together with `C17_refinement_import_at_step` every import whose
+    source exists is covered: selection non-empty → same result on both sides; empty → rejected. -/
+theorem C17_refinement_import_empty (tbl : UnitTable) (env : Env) (hinv : Inv tbl env) (i : Nat)
+    (pre dest : List Str) (source : Option Str) (q : SQuery) (hws : WFSource source) (hq : WFQ q)
+    (ss : List SNode) (hl : sLookup (absEnv env) source = some ss) (hsel : select q ss = []) :
+    sStep tbl (absEnv env) (.imp dest source q) = .ok { absEnv env with mayReject := true } ∧
+    ∃ e, step tbl env (.node (impAt i pre source q)) = .error e := by
+  refine ⟨?_, imp_empty_rejected tbl env hinv i pre source q hws hq ss hl hsel⟩
+  simp [sStep, hl, hsel]
+
+/-- non-trivial instance: one node `a`, the request `b.*` selects nothing -/
+example : let env : Env := { Env.empty with
+      nodes := [{ blank ['a'] .float with value := some (.num 3), unitsRaw := some ['m'] }] }
+    WFSource none ∧ WFQ (.children [['b']]) ∧
+    sLookup (absEnv env) none = some (absEnv env).nodes ∧ select (.children [['b']]) (absEnv env).nodes = [] := by
+  intro env
+  refine ⟨by simp [WFSource], ⟨⟨by simp, by simp⟩, by simp [joinDot]⟩, by simp [sLookup, absEnv, env], ?_⟩
+  simp [select, absEnv, env, absN, blank, splitDot, sMatches, List.filter]
+
 /-- a property line in its documented place: "update the node at the path" (specification) and
     "update the last node" (code) are the same update -/
 theorem C17_refinement_property_step (tbl : UnitTable) (env : Env) (hinv : Inv tbl env)
